@@ -50,13 +50,63 @@ func peekInt(v reflect.Value) (int64, bool) {
 	return 0, false
 }
 
-// VerifPending peeks at the pending-request counter without a scheduling point.
-func (p *TriggerPool) VerifPending() int64 {
-	n, ok := peekInt(reflect.ValueOf(&p.jobsToExecute).Elem())
+// field looks a private field of the pool up by name, trying the names a
+// refactoring is likely to use; ok=false if none exists.
+func field(p any, names ...string) (reflect.Value, bool) {
+	v := reflect.ValueOf(p).Elem()
+	for _, n := range names {
+		if f := v.FieldByName(n); f.IsValid() {
+			return f, true
+		}
+	}
+	return reflect.Value{}, false
+}
+
+func peekBool(v reflect.Value) (bool, bool) {
+	if !v.CanAddr() {
+		return false, false
+	}
+	p := reflect.NewAt(v.Type(), unsafe.Pointer(v.UnsafeAddr()))
+	if pk, ok := p.Interface().(peekerBool); ok {
+		return pk.Peek(), true
+	}
+	if v.Kind() == reflect.Bool {
+		return p.Elem().Bool(), true
+	}
+	return false, false
+}
+
+// VerifPending peeks at the pending-request counter without a scheduling point
+// (ok=false: the structure no longer has a field the accessor recognises).
+func (p *TriggerPool) VerifPendingOK() (int64, bool) {
+	f, ok := field(p, "jobsToExecute", "pendingJobs", "pending", "jobs")
 	if !ok {
-		panic("verif: cannot find the pending-request counter in TriggerPool.jobsToExecute")
+		return 0, false
+	}
+	return peekInt(f)
+}
+
+func (p *TriggerPool) VerifPending() int64 {
+	n, ok := p.VerifPendingOK()
+	if !ok {
+		panic("verif: cannot find the pending-request counter in TriggerPool")
 	}
 	return n
 }
 
-func (p *TriggerPool) VerifStopped() bool { return p.stopWorkers.Peek() }
+// VerifStopped peeks at the pool's stop flag.
+func (p *TriggerPool) VerifStoppedOK() (bool, bool) {
+	f, ok := field(p, "stopWorkers", "stopped", "stop")
+	if !ok {
+		return false, false
+	}
+	return peekBool(f)
+}
+
+func (p *TriggerPool) VerifStopped() bool {
+	b, ok := p.VerifStoppedOK()
+	if !ok {
+		panic("verif: cannot find the stop flag in TriggerPool")
+	}
+	return b
+}
